@@ -326,11 +326,7 @@ NUM_BLOCKS = {"blockdiag": 2, "blockdiag3": 3, "blockinterleaved": 2, "blockinte
               "x_blockinter_sum": 2, "x_sumbatch_blockdiag": 2, "x_constmul_blockinter": 3}  # (x_tri_of_blockdiag: Triangular._getitem does not take the fast path)
 CHOL_CASES = ("chol_lower", "chol_upper")
 KNOWN_DEFECT_CASES = set(CAT_DIMS) | set(NUM_BLOCKS) | set(CHOL_CASES) | {"tperm"}
-CAT_PIECES = {  # case -> f(size of the cat dimension) = (piece sizes, indices of the pieces that are not DenseLinearOperators)
-    "x_cat3_rows": lambda S: ([(S - 1) // 2, (S - 1) // 2, 1], {1}),
-    "x_cat3_cols": lambda S: ([(S - 2) // 2, 2, (S - 2) // 2], {0, 2}),
-    "x_cat_rows_square": lambda S: ([1, S - 1], {1} if (S - 1) % 2 == 0 else set()),
-}
+CAT_PIECES = {}  # (F4, `.to(None)` on a non-dense piece of a CatLinearOperator, was fixed in /repo a904f2a: tag no longer needed)
 
 
 def trigger_of(torch, case, full, shape):
